@@ -355,6 +355,10 @@ func (w *WAL) FirstIndex() (uint64, error) {
 	verifYield("FirstIndex:after-closed-check")
 	s, release := w.acquireState()
 	defer release()
+	if s.tail == nil {
+		// Close replaced the state after our closed check above.
+		return 0, ErrClosed
+	}
 	return s.firstIndex(), nil
 }
 
@@ -366,6 +370,10 @@ func (w *WAL) LastIndex() (uint64, error) {
 	verifYield("LastIndex:after-closed-check")
 	s, release := w.acquireState()
 	defer release()
+	if s.tail == nil {
+		// Close replaced the state after our closed check above.
+		return 0, ErrClosed
+	}
 	return s.lastIndex(), nil
 }
 
@@ -377,10 +385,19 @@ func (w *WAL) GetLog(index uint64, log *raft.Log) error {
 	verifYield("GetLog:after-closed-check")
 	s, release := w.acquireState()
 	defer release()
+	if s.tail == nil {
+		// Close replaced the state after our closed check above.
+		return ErrClosed
+	}
 	w.metrics.IncrementCounter("log_entries_read", 1)
 
 	raw, err := s.getLog(index)
 	if err != nil {
+		if err != ErrNotFound && w.checkClosed() != nil {
+			// We raced with Close: it may already have closed the files of the
+			// state we loaded. Report that rather than the file error.
+			return ErrClosed
+		}
 		return err
 	}
 	w.metrics.IncrementCounter("log_entry_bytes_read", uint64(len(raw.Bs)))
@@ -412,6 +429,11 @@ func (w *WAL) StoreLogs(logs []*raft.Log) error {
 	// write lock.
 	w.awaitRotationLocked()
 
+	// Close takes the same lock, so now we hold it this check is reliable (the
+	// one above only avoids taking the lock needlessly).
+	if err := w.checkClosed(); err != nil {
+		return err
+	}
 	if w.writeErr != nil {
 		return w.writeErr
 	}
@@ -525,6 +547,11 @@ func (w *WAL) DeleteRange(min uint64, max uint64) error {
 	// write lock.
 	w.awaitRotationLocked()
 
+	// Close takes the same lock, so now we hold it this check is reliable (the
+	// one above only avoids taking the lock needlessly).
+	if err := w.checkClosed(); err != nil {
+		return err
+	}
 	if w.writeErr != nil {
 		return w.writeErr
 	}
@@ -584,7 +611,14 @@ func (w *WAL) Set(key []byte, val []byte) error {
 	}
 	verifYield("Set:after-closed-check")
 	w.metrics.IncrementCounter("stable_sets", 1)
-	return w.metaDB.SetStable(key, val)
+	if err := w.metaDB.SetStable(key, val); err != nil {
+		if w.checkClosed() != nil {
+			// Raced with Close which already closed the meta store.
+			return ErrClosed
+		}
+		return err
+	}
+	return nil
 }
 
 // Get implements raft.StableStore
@@ -594,7 +628,12 @@ func (w *WAL) Get(key []byte) ([]byte, error) {
 	}
 	verifYield("Get:after-closed-check")
 	w.metrics.IncrementCounter("stable_gets", 1)
-	return w.metaDB.GetStable(key)
+	val, err := w.metaDB.GetStable(key)
+	if err != nil && w.checkClosed() != nil {
+		// Raced with Close which already closed the meta store.
+		return nil, ErrClosed
+	}
+	return val, err
 }
 
 // SetUint64 implements raft.StableStore. We assume the same key space as Set
@@ -976,7 +1015,12 @@ func (w *WAL) Close() error {
 	defer w.writeMu.Unlock()
 
 	// It doesn't matter if there is a rotation scheduled because runRotate will
-	// exist when it sees we are closed anyway.
+	// exist when it sees we are closed anyway. But a writer may already be
+	// waiting for that rotation to complete: runRotate won't wake it now, so we
+	// must (it re-checks closed once it has the lock).
+	if w.awaitRotate != nil {
+		close(w.awaitRotate)
+	}
 	w.awaitRotate = nil
 	// Awake and terminate the runRotate
 	close(w.triggerRotate)
